@@ -19,6 +19,8 @@
 (*                "valid" | "struct" (the document has a shape the schema forbids)      *)
 (*                | "value" (a value outside the schema value space was chosen)         *)
 (*                | "na" (no validation context for this class)                         *)
+(*   pure         writing left the value unchanged and a second write of the same object   *)
+(*                gave the same XML (whole-object records)                                *)
 (*   shared       the object read for the member is an object that also belongs to      *)
 (*                another instance / to the class                                       *)
 (* value classes "base" / "full" / "pair" are whole-object records (no single member).  *)
@@ -76,6 +78,9 @@ JudgeProp(c, o) ==
 JudgeWhole(c, o) ==
   /\ Clause("write_ok", o.w = "ok")
   /\ o.w = "ok" =>
+       \* writing observes: it neither changes the value (nor the elements the value was built from) nor does a second
+       \* write of the same object say something else
+       /\ Clause("write_pure", o.pure)
        /\ Clause("valid", o.valid # "struct")
        /\ Clause("read_ok", o.r = "ok")
        /\ o.r = "ok" =>
